@@ -199,13 +199,17 @@ struct Table {
 
 impl Table {
     fn record(&mut self, a: &mut Allocator, d: &ChiaDialect, p: NodePtr, args: NodePtr, budget: u64) -> Option<NodePtr> {
+        // a failed evaluation may leave the allocator at its limits: give its allocations back
+        let cp = a.checkpoint();
         match run_program(a, d, p, args, budget) {
             Ok(Reduction(c, r)) => {
                 self.entries.push((p, args, 0, c, r));
                 Some(r)
             }
             Err(e) => {
-                self.entries.push((p, args, eval_kind(&e), 0, NodePtr::NIL));
+                let k = eval_kind(&e);
+                a.restore_checkpoint(&cp);
+                self.entries.push((p, args, k, 0, NodePtr::NIL));
                 None
             }
         }
